@@ -316,6 +316,10 @@ theorem Matchable.matchTo_parts (a : Matchable) (idx : Nat) (rd : Read) (m : Any
     simp only [Matchable.matchTo, Option.map_eq_some_iff] at h
     obtain ⟨sm, _, rfl⟩ := h
     simp [AnyMatch.parts, PartChain]
+  | indexed ix ids =>
+    simp only [Matchable.matchTo, Option.map_eq_some_iff] at h
+    obtain ⟨im, _, rfl⟩ := h
+    simp [AnyMatch.parts, PartChain]
   | linked f b fr br nm =>
     simp only [Matchable.matchTo] at h
     cases hf : Adapters.matchTo f rd.seq with
